@@ -19,6 +19,8 @@ import Driver.Id3File
 import Driver.ApeFile
 import Driver.Iff
 import Driver.Dsf
+import Driver.Asf
+import Driver.OggInject
 open Driver
 
 def dispatch (line : String) : String :=
@@ -46,6 +48,8 @@ def dispatch (line : String) : String :=
     | "apef" => apefOp a
     | "iff" => iffOp a
     | "dsf" => dsfOp a
+    | "asf" => asfOp a
+    | "ogginject" => ogginjectOp a
     | "flacinfo" => flacInfoOp a
     | "ping" => "pong"
     | _ => "bad-op"
